@@ -12,18 +12,18 @@ import (
 
 func init() {
 	register(&PropRules{
-		ID: "C08",
+		ID:      "C08",
 		Explain: "Program-side necessary conditions of crash atomicity, decided on every CFG path of every function of package store that mutates a directory entry: (C08.1) no write-capable open and no content write except to a temp file in <base>/.tmp; (C08.2) on every path to the rename: first-line write, then aux copy, then tmp.Sync() with checked error, no write after the sync, rename source = that temp file, destination = the reserved/existing user file; (C08.3) the aux copy is reader.WriteTo(tmp) over the old file after skipping exactly one line; (C08.4) after a successful getTempFile every exit removes the temp file. Together with the hand argument in DESIGN §4 (a final name only ever points to the empty reservation, the old inode or a fully written and fsynced temp inode) this is the structural part of the property.",
-		Undec: []string{"the kernel / file system honouring fsync and atomic rename", "enumeration of concrete crash states and what a concurrent reader observes", "byte-level content of the files"},
-		Run:   runC08,
-		Floors: map[string]int{"C08.1": 10, "C08.2": 1, "C08.3": 1, "C08.4": 1},
+		Undec:   []string{"the kernel / file system honouring fsync and atomic rename", "enumeration of concrete crash states and what a concurrent reader observes", "byte-level content of the files"},
+		Run:     runC08,
+		Floors:  map[string]int{"C08.1": 10, "C08.2": 1, "C08.3": 1, "C08.4": 1},
 	})
 	register(&PropRules{
-		ID: "C09",
+		ID:      "C09",
 		Explain: "Program-side necessary conditions of durability: (C09.1) the temp file is fsynced, with the error checked, before the rename that makes it visible; (C09.2) for every rename/unlink/creating-open of a user file, every path from it to a success exit of the operation passes Sync() on a handle of the base directory (directly or through a helper that does so on all its success paths).",
-		Undec: []string{"the file system honouring the persistence model", "enumeration of post-crash states", "for Remove, whose API has no error result, a failing directory fsync cannot be reported"},
-		Run:   runC09,
-		Floors: map[string]int{"C09.1": 1, "C09.2": 4},
+		Undec:   []string{"the file system honouring the persistence model", "enumeration of post-crash states", "for Remove, whose API has no error result, a failing directory fsync cannot be reported"},
+		Run:     runC09,
+		Floors:  map[string]int{"C09.1": 1, "C09.2": 4},
 	})
 }
 
@@ -154,8 +154,8 @@ func c081(c *an.Ctx, p *an.Prog, x *fsx) {
 			}
 		}
 		// interface writes (io.Writer.Write) inside package store
-		for _, b := range fn.Blocks {
-			for _, in := range b.Instrs {
+		for _, in := range an.DeepInstrs(fn) {
+			{
 				if ci, ok := in.(ssa.CallInstruction); ok && ci.Common().IsInvoke() {
 					m := ci.Common().Method.Name()
 					if m == "Write" || m == "WriteString" || m == "WriteAt" || m == "Truncate" {
@@ -348,8 +348,8 @@ func c084(c *an.Ctx, p *an.Prog, x *fsx, rule string) {
 	for _, fn := range storeFns(p) {
 		// call sites that yield a temp file handle
 		var sites []*ssa.Call
-		for _, b := range fn.Blocks {
-			for _, in := range b.Instrs {
+		for _, in := range an.DeepInstrs(fn) {
+			{
 				call, ok := in.(*ssa.Call)
 				if !ok {
 					continue
